@@ -174,6 +174,13 @@ func checkBind(in BindInput) (f *fail, mustErr bool) {
 					return
 				}
 			}
+			if ord[0] == "c" {
+				// a look at the tree before the processing run (as callers that only want the
+				// statements' entries do) must not change what the run then binds
+				if m := ms.Modules["a"]; m != nil {
+					yang.ToEntry(m)
+				}
+			}
 			errs := ms.Process()
 			switch {
 			case mustErr && len(errs) == 0:
